@@ -204,17 +204,23 @@ def curvature_rule(ctx, p):
         ctx.ob("C13.normal", f.key + ":operands", bm == {"self.operated_mapping_matrix"} and bn == {"self.noise_map"}, where=f, node=calls[0],
                construct=f"operators {sorted(bm)} noise {sorted(bn)}", message="both Gram products must use the inversion's own operated mapping matrix and noise map")
         # the two products are summed (np.add or +) and that sum is what the diagonal term is added to / returned
-        S = 0
-        summed = False
+        # name-free: on every returning path the value contains the sum (np.add / +) of exactly the two Gram product calls (sa/paths.py)
+        from .. import paths
+        PSf = paths.returns(paths.path_summaries(f, project=p) or [])
         names = {}
-        for n in f.body_nodes():
-            if isinstance(n, ast.Assign) and isinstance(n.targets[0], ast.Name) and any(n.value is c_ for *_x, c_ in parts):
-                names[n.targets[0].id] = n
-        for n in f.body_nodes():
-            if isinstance(n, ast.Call) and norm_text(n.func) in ("np.add", "numpy.add") and len(n.args) == 2 and {norm_text(a) for a in n.args} == set(names):
-                summed = True
-            if isinstance(n, ast.BinOp) and isinstance(n.op, ast.Add) and {norm_text(n.left), norm_text(n.right)} == set(names):
-                summed = True
+        summed = bool(PSf)
+        for q in PSf:
+            found = False
+            for n in ast.walk(q.value):
+                ops = None
+                if isinstance(n, ast.Call) and paths.ptext(n.func) in ("np.add", "numpy.add") and len(n.args) == 2 and not n.keywords:
+                    ops = n.args
+                elif isinstance(n, ast.BinOp) and isinstance(n.op, ast.Add):
+                    ops = [n.left, n.right]
+                if ops and all(isinstance(o, ast.Call) and paths.ptext(o.func).endswith("curvature_matrix_via_mapping_matrix_from") for o in ops) and paths.ptext(ops[0]) != paths.ptext(ops[1]):
+                    found = True
+            summed = summed and found
+        names = {"real": 1, "imag": 1} if summed else {}
         ctx.ob("C13.normal", f.key + ":sum", summed and len(names) == 2, where=f, node=f.node, construct=f"products bound to {sorted(names)}",
                message="the real and imaginary Gram products must be added (np.add / +)")
     # data vector wiring
